@@ -66,6 +66,15 @@ def sweep(ctx):
             buf = bytes([t]) + v.to_bytes(2, 'big') + ln.to_bytes(2, 'big') + body + rng.randbytes(r - ln)
             for op in (('tls_raw', 'tls_encrypted') if t not in (20, 23) or (t == 21 and ln % 2) else OPS):
                 cases.append((op, t, v, ln, len(buf), buf))
+    # a handshake record whose only message declares 2^16 / 2^17 more bytes than the record holds, with that many bytes
+    # following the record: the record parsers consume 5 + length and nothing else, whatever the payload says
+    for top in (1, 2):
+        for blen in (0, 9):
+            for ht in (20, 16):
+                msg = bytes([ht]) + (top * 65536 + blen).to_bytes(3, 'big') + rng.randbytes(blen)
+                buf = bytes([22, 3, 3]) + len(msg).to_bytes(2, 'big') + msg + rng.randbytes(top * 65536 + 7)
+                for op in OPS:
+                    cases.append((op, 22, 0x0303, len(msg), len(buf), buf))
     return cases
 
 
